@@ -121,6 +121,7 @@ func checkAdvertisedBorders(p *Prog, r *Roles, res *Result, rule string) {
 		return false
 	}
 	// does value v, evaluated under facts, advertise a raw border?
+	misaligned := map[ssa.Value]bool{}
 	var leak func(v ssa.Value, facts []condFact, d int, seen map[ssa.Value]bool) ssa.Value
 	leak = func(v ssa.Value, facts []condFact, d int, seen map[ssa.Value]bool) ssa.Value {
 		v = resolve(v)
@@ -133,6 +134,27 @@ func checkAdvertisedBorders(p *Prog, r *Roles, res *Result, rule string) {
 				return nil
 			}
 			return v
+		}
+		// a realigned border is the index key of the very key the border was decoded to - not of a neighbour computed
+		// from it (the end of its prefix range lies behind every longer key that begins with it)
+		if c, ok := v.(*ssa.Call); ok && r.is(c, r.EncRev) {
+			arg := p.resolveDeep(argForSigParam(c, 0))
+			okArg := false
+			if ex, isEx := arg.(*ssa.Extract); isEx && ex.Index == 0 {
+				if dc, isCall := ex.Tuple.(*ssa.Call); isCall && r.is(dc, r.Decode) {
+					if _, isRaw := rawOf(argForSigParam(dc, 0)); isRaw {
+						okArg = true
+					}
+				}
+			}
+			if _, isPrm := arg.(*ssa.Parameter); isPrm {
+				okArg = true // a helper that is handed the key
+			}
+			if !okArg {
+				misaligned[v] = true
+				return v
+			}
+			return nil
 		}
 		if phi, ok := v.(*ssa.Phi); ok && !seen[v] {
 			seen[v] = true
@@ -257,7 +279,9 @@ func checkAdvertisedBorders(p *Prog, r *Roles, res *Result, rule string) {
 								}
 							}
 						}
-						if l := leak(st.Val, dominatingFacts(c.Block()), 0, map[ssa.Value]bool{}); l != nil {
+						if l := leak(st.Val, dominatingFacts(c.Block()), 0, map[ssa.Value]bool{}); l != nil && misaligned[l] {
+							res.bad(rule, construct, p.pos(c.Pos()), "a border inside the versions of a key is moved to the index record of another key than the one it was decoded to (a successor computed from it): the end of a key's prefix range lies behind every longer key that begins with that key, so the advertised borders are no longer ascending and two partitions overlap - the keys in between are streamed twice")
+						} else if l != nil {
 							res.bad(rule, construct, p.pos(c.Pos()), "a partition border of the engine is handed on unchanged although it may lie between two versions of one key: a client that streams every advertised [border, next border) on its own receives that key from both streams (the scanner realigns only the borders between the workers of one scan)")
 						} else {
 							res.ok(rule, construct, p.pos(c.Pos()), "first start / last end, or not a version key (Decode failed or revision 0), or re-encoded as an index key")
